@@ -545,3 +545,34 @@ def dense_variants(anno, genome, tx_id: str, rng: random.Random, n: int, max_siz
         seen.add(rec.id)
         out.append(rec)
     return out
+
+
+def custom_reference(case: Case, cds_seq: str, utr5: str = 'GCGC', utr3: str = 'GCGCGCGCGC',
+                     tx_id: str = 'ENST0001', gene_id: str = 'ENSG0001'):
+    """single-exon plus-strand coding transcript `utr5 + cds_seq + utr3` (cds_seq includes the
+    stop codon); returns the transcript id. Files written by hand (not by the repo writers)."""
+    from Bio.Seq import Seq
+    seq = utr5 + cds_seq + utr3
+    pad = 'ACGT' * 5
+    chrom = pad + seq + pad
+    s = len(pad)
+    attrs = (f'gene_id "{gene_id}"; transcript_id "{tx_id}"; gene_type "protein_coding"; '
+             f'gene_name "G1"; transcript_type "protein_coding"; protein_id "ENSP0001";')
+    gattrs = f'gene_id "{gene_id}"; gene_type "protein_coding"; gene_name "G1";'
+    lines = [
+        f'chr1\tHAVANA\tgene\t{s + 1}\t{s + len(seq)}\t.\t+\t.\t{gattrs}',
+        f'chr1\tHAVANA\ttranscript\t{s + 1}\t{s + len(seq)}\t.\t+\t.\t{attrs}',
+        f'chr1\tHAVANA\texon\t{s + 1}\t{s + len(seq)}\t.\t+\t.\t{attrs}',
+        f'chr1\tHAVANA\tCDS\t{s + len(utr5) + 1}\t{s + len(utr5) + len(cds_seq) - 3}\t.\t+\t0\t{attrs}',
+        f'chr1\tHAVANA\tUTR\t{s + 1}\t{s + len(utr5)}\t.\t+\t.\t{attrs}',
+        f'chr1\tHAVANA\tUTR\t{s + len(utr5) + len(cds_seq) - 2}\t{s + len(seq)}\t.\t+\t.\t{attrs}',
+    ]
+    with open(case.gtf, 'wt') as fh:
+        fh.write('\n'.join(lines) + '\n')
+    with open(case.genome, 'wt') as fh:
+        fh.write(f'>chr1\n{chrom}\n')
+    prot = str(Seq(cds_seq[:-3]).translate())
+    with open(case.proteome, 'wt') as fh:
+        fh.write(f'>ENSP0001|{tx_id}|{gene_id}|OTTHUMG1|OTTHUMT1|G1-201|G1|{len(prot)}\n{prot}\n')
+    case.tx_ids = [tx_id]
+    return tx_id, len(utr5)
